@@ -166,9 +166,17 @@ def run(tier):
             for an in "ab":
                 by_option[len(trees)] = an
                 trees.append((T.Node(root, [(r.choice("ab"), 1, p_, T.Node(r.choice(["Glc", "Gal", "Man"])))]), " " + an))
+    # ... and ordinary trees with the anomer by option, assembled at construction or on demand (tree_only / full=False)
+    lazy = {}
+    for i in range(n0):
+        t_, sfx_ = trees[i]
+        if sfx_.strip() in ("a", "b") and r.random() < 0.3:
+            by_option[i] = sfx_.strip()
+    for i in by_option:
+        lazy[i] = r.choice([{}, {"tree_only": True}, {"full": False}])
     texts = [(T.render(t) if i in by_option else T.render(t) + sfx) for i, (t, sfx) in enumerate(trees)]
     names = sorted(set(n for t, sfx in trees for n in (res_names(t)[1:] + [t.name + sfx])))
-    outs = C.run_impl_parallel("merge_trace", [{"iupac": x, "kw": ({"root_orientation": by_option[i]} if i in by_option else {})} for i, x in enumerate(texts)])
+    outs = C.run_impl_parallel("merge_trace", [{"iupac": x, "kw": (dict(lazy[i], root_orientation=by_option[i]) if i in by_option else {})} for i, x in enumerate(texts)])
     singles = chem.convert_all(names)
     single = {n: o["smiles"] for n, o in zip(names, singles)}
     stats = {"denotes": 0, "nospec": 0, "noref": 0, "nodes_compared": 0}
